@@ -338,6 +338,11 @@ func checkC09(an *Analysis, add func(Violation)) {
 					a.at, turn-c.Begin.T, c.End.T-c.Sends[0].T, c.Rec.Obs.Err))
 			}
 		}
+		// "never gives up early" starts with asking: a call with acceptable arguments that fails without having opened a
+		// socket (and without a system call having failed) never gave its controller the chance to answer
+		if c.Rec != nil && c.Rec.Obs.Failed() && c.Rec.Obs.Panic == "" && len(c.Socks) == 0 && len(c.KFails) == 0 && len(c.Sends) == 0 {
+			v("gave-up-before-asking", fmt.Sprintf("the call failed without opening a socket or sending anything (%d tasks in the run): %s", len(an.Sc.Tasks), c.Rec.Obs.Err))
+		}
 		// "with an error if no acceptable reply arrived": a call that reports success was handed a 64-byte message
 		// carrying the addressed controller's serial number (whether its content is acceptable is C03's business)
 		if c.St.Op != model.GetDevices && c.St.Op.HasReply() && c.Rec != nil && !c.Rec.Obs.Failed() && c.Rec.Obs.Panic == "" {
@@ -501,17 +506,13 @@ func checkC11(an *Analysis, add func(Violation)) {
 			optional bool
 			data     []byte
 		}
-		// when each datagram reached the socket (the world tags every emission; the kernel logs the tag with the read)
-		arrivedAt := map[string]time.Duration{}
-		for _, a := range c.Arrived {
-			if _, seen := arrivedAt[a.Note]; !seen {
-				arrivedAt[a.Note] = a.T
-			}
-		}
+		// what reached the socket, in order (the queue is first-in first-out, so this is the order of the reads as
+		// well): every well-formed reply among them is an entry - however the library went about reading it. (A 64-byte
+		// reply that the library reads into a buffer with less than 64 bytes of room is lost by the library, not by
+		// the network.)
 		var exps []exp
-		for _, d := range c.Reads {
-			full := d.Note == fmt.Sprint(d.N)
-			if d.N != 64 || !full || len(d.Data) != 64 {
+		for _, d := range c.Arrived {
+			if d.N != 64 || len(d.Data) != 64 {
 				continue
 			}
 			if d.Data[0] != 0x17 || d.Data[1] != model.GetDevice.Code() {
@@ -528,11 +529,7 @@ func checkC11(an *Analysis, add func(Violation)) {
 				}
 			}
 			x := exp{e: e, data: d.Data}
-			at, known := arrivedAt[d.Dst]
-			if !known {
-				at = d.T
-			}
-			if e.Fail != 0 || at >= wake || serial == 0 { // a datagram that arrives at the very instant of the wake-up is a tie
+			if e.Fail != 0 || d.T >= wake || serial == 0 { // a datagram that arrives at the very instant of the wake-up is a tie
 				x.optional = true
 			}
 			e.Fail = 0
